@@ -112,24 +112,38 @@ def run(ctx):
     # ---- D-POOL / D-REWIRE in random_shuffle
     v = ctx.view("random.random_shuffle")
     f = v.fi.short
-    writes = []
+    def selected_edges_generators(gens):
+        """`for i in indices_to_replace for node in current_edges[i]`"""
+        its = [norm(g.iter) for g in gens]
+        return len(gens) >= 2 and its[0] == "indices_to_replace" and its[1] == f"current_edges[{norm(gens[0].target)}]"
+
+    n_sources = 0
     for n in walk_no_nested(v.fi.node):
+        # (a) element stores  pool_nodes[node] = ... / += ...
         if isinstance(n, (ast.Assign, ast.AugAssign)):
             tg = n.targets if isinstance(n, ast.Assign) else [n.target]
             for t in tg:
                 if isinstance(t, ast.Subscript) and norm(t.value) == "pool_nodes":
-                    writes.append(n)
-    if not writes:
+                    n_sources += 1
+                    loops = v.enclosing_all(n, (ast.For,))
+                    its = [norm(l.iter) for l in loops]
+                    ok = len(loops) >= 2 and its[-1] == "indices_to_replace" and its[-2] == f"current_edges[{norm(loops[-1].target)}]"
+                    res.check(ok, "D-POOL", f, norm(n), "from-rewired-edges", f"the pool is filled while iterating {its}: replacement nodes can come from hyperedges that are not rewired", loc(v.fi, n))
+                # (b) whole-pool definitions
+                if isinstance(t, ast.Name) and t.id == "pool_nodes" and isinstance(n, ast.Assign):
+                    val = n.value
+                    if isinstance(val, ast.Dict) and not val.keys:
+                        continue  # empty initialisation
+                    if "pool_nodes" in {x.id for x in ast.walk(val) if isinstance(x, ast.Name)}:
+                        continue  # re-packing of the pool itself (keys -> array)
+                    n_sources += 1
+                    if isinstance(val, (ast.DictComp, ast.SetComp, ast.ListComp)):
+                        ok = selected_edges_generators(val.generators)
+                        res.check(ok, "D-POOL", f, norm(n), "from-rewired-edges", f"the pool is built from {[norm(g.iter) for g in val.generators]}, not from the hyperedges selected for rewiring: replacement nodes can come from hyperedges that are not rewired", loc(v.fi, n))
+                    else:
+                        res.violation("D-POOL", f, norm(n), "from-rewired-edges", "the pool is taken from another source than the hyperedges selected for rewiring", loc(v.fi, n))
+    if n_sources == 0:
         raise AnalysisError(f"{f}: pool construction idiom not recognised")
-    for w in writes:
-        loops = v.enclosing_all(w, (ast.For,))
-        its = [norm(l.iter) for l in loops]
-        ok = len(loops) >= 2 and its[-1] == "indices_to_replace" and its[-2] == f"current_edges[{norm(loops[-1].target)}]"
-        res.check(ok, "D-POOL", f, norm(w), "from-rewired-edges", f"the pool is filled while iterating {its}: replacement nodes can come from hyperedges that are not rewired", loc(v.fi, w))
-    inits = [n for n in walk_no_nested(v.fi.node) if isinstance(n, ast.Assign) and isinstance(n.targets[0], ast.Name) and n.targets[0].id == "pool_nodes" and not v.enclosing_all(n, (ast.For,))]
-    for n in inits:
-        ok = (isinstance(n.value, ast.Dict) and not n.value.keys) or "pool_nodes" in norm(n.value)
-        res.check(ok, "D-POOL", f, norm(n), "init", "the pool is initialised from another source than the selected hyperedges", loc(v.fi, n))
     sel = [n for n in walk_no_nested(v.fi.node) if isinstance(n, ast.Assign) and isinstance(n.targets[0], ast.Name) and n.targets[0].id == "current_edges"]
     res.check(bool(sel) and all("hg.get_edges(size=size)" in norm(s.value) for s in sel), "D-REWIRE", f, norm(sel[0]) if sel else "current_edges = ...", "selection", "the rewired hyperedges are not exactly those of the requested size", loc(v.fi, v.fi.node))
     lp = [n for n in walk_no_nested(v.fi.node) if isinstance(n, ast.For) and "enumerate(current_edges)" in norm(n.iter)]
